@@ -340,6 +340,7 @@ pub fn run(desc: &Value, ctx: &Ctx) -> CaseOut {
                 }
                 let mut plan2 = plan.clone();
                 plan2.checks = true;
+                plan2.reverse = scn % 2 == 1;
                 if let Some(d) = damaged_id {
                     // reading the contents of a damaged pack is C05/C06's subject, not this property's
                     plan2.addrs.retain(|(p, _)| *p != d);
